@@ -9,6 +9,7 @@ pub mod c07;
 pub mod c08;
 pub mod c09;
 pub mod c10;
+pub mod c11;
 pub mod c12;
 pub mod c13;
 pub mod c14;
@@ -33,6 +34,7 @@ pub fn lookup(id: &str) -> Option<(&'static str, fn(&Engine))> {
         "C08" => ("C08", c08::run),
         "C09" => ("C09", c09::run),
         "C10" => ("C10", c10::run),
+        "C11" => ("C11", c11::run),
         "C12" => ("C12", c12::run),
         "C13" => ("C13", c13::run),
         "C14" => ("C14", c14::run),
